@@ -26,7 +26,7 @@ def run(ctx):
     ]
     r = ctx.tlc('MpcSetup', 'MpcSetup.cfg', workers=1, timeout=1800)
     behs = r.beh
-    if len(behs) < 900:
+    if len(behs) < 1400:
         raise vlib.Infra('MpcSetup produced %d transcripts' % len(behs))
     for i, b in enumerate(behs):
         b['id'] = i
